@@ -146,6 +146,21 @@ def run(ctx):
     if outs[(sd + 1, 0)][0] != outs[(sd + 1, 0)][1]: ctx.report('seed-determinism', 're-seeding with the same seed does not reproduce the same ciphertext', {'seed': sd + 1})
     if outs[(sd + 1, 0)][0] == outs[(sd + 2, 0)][0]: ctx.report('seed-sensitivity', 'different seeds give the same ciphertext', {'seeds': [sd + 1, sd + 2]})
     if outs[(sd + 1, 0)][0] == outs[(sd + 1, 10)][0]: ctx.report('fresh-randomness', 'two encryptions of the same message at different generator positions are identical', {'seed': sd + 1})
+    # --- the generator is one per process: seeded by the main thread, drawn from by worker threads that run one after the other (key generation,
+    #     two encryptions).  The draws must be the continuation of the seeded stream (replayed by the harness), so the two masks differ and a
+    #     different seed gives a different key
+    touts = {}
+    for s in (sd + 5, sd + 6):
+        line, r = E.lib(16, [40], s, 3, 33554432, 0); ctx.count(line)
+        if r is None: ctx.report('enc-crash', 'key generation / encryption on worker threads died', {'case': line}); continue
+        touts[s] = r
+        key = r['res'][:40]; c1 = r['res'][40:81]; c2 = r['res'][81:122]
+        if not r['same']:
+            ctx.report('draw-sequence', 'key generation and two encryptions made by worker threads (seed set by the main thread): the process generator is not in the state reached by the draws these calls make - '
+                       'the worker threads did not draw from the seeded stream', {'case': line})
+        if c1[:40] == c2[:40]: ctx.report('fresh-randomness', 'two encryptions made by two worker threads one after the other have the same mask', {'case': line})
+    if len(touts) == 2 and touts[sd + 5]['res'][:40] == touts[sd + 6]['res'][:40]:
+        ctx.report('seed-sensitivity', 'LWE keys generated by a worker thread after the main thread set two different seeds are identical', {'seeds': [sd + 5, sd + 6]})
     # --- statistics of the embedded draws
     stats = {}
     for a1, G in Gby.items():
